@@ -94,6 +94,13 @@ pub struct Profile {
     pub no_parent_escape: bool,
     /// keep `export type ..` out of field/variant docs (known finding of the same-file merge)
     pub doc_merge_safe: bool,
+    /// generate PhantomData<T> / Weak<T> although their bindings are listed known findings
+    pub known_wrappers: bool,
+    /// only externally tagged enums, no per-variant untagged (nothing goes through serde's
+    /// Content buffer)
+    pub external_only: bool,
+    /// percentage of enums that are plain unit enums (usable as map keys / set elements)
+    pub unit_enum_bias: u32,
 }
 
 impl Profile {
@@ -127,6 +134,9 @@ impl Profile {
             known_inline_default: false,
             no_parent_escape: false,
             doc_merge_safe: false,
+            known_wrappers: false,
+            external_only: false,
+            unit_enum_bias: 0,
         }
     }
 }
@@ -230,6 +240,7 @@ fn has_default(ty: &TyExpr) -> bool {
         TyExpr::Tuple(ts) => ts.iter().all(has_default),
         TyExpr::Array(t, n) => *n <= 32 && has_default(t),
         TyExpr::Wrap(w, t) => matches!(*w, "Box" | "Rc" | "Arc" | "Cell" | "RefCell" | "Mutex") && has_default(t),
+        TyExpr::Lib(n, _) => matches!(*n, "std::collections::HashSet" | "std::collections::BTreeSet" | "std::marker::PhantomData" | "std::path::PathBuf"),
         _ => false,
     }
 }
@@ -241,6 +252,7 @@ fn mentions_user(ty: &TyExpr) -> bool {
         TyExpr::Option(t) | TyExpr::Vec(t) | TyExpr::Array(t, _) | TyExpr::Wrap(_, t) => mentions_user(t),
         TyExpr::Tuple(ts) => ts.iter().any(mentions_user),
         TyExpr::Map(k, v, _) => mentions_user(k) || mentions_user(v),
+        TyExpr::Lib(_, args) => args.iter().any(mentions_user),
     }
 }
 
@@ -260,6 +272,8 @@ fn contains_tuple(ty: &TyExpr) -> bool {
         TyExpr::Option(t) | TyExpr::Vec(t) | TyExpr::Array(t, _) | TyExpr::Wrap(_, t) => contains_tuple(t),
         TyExpr::Map(k, v, _) => contains_tuple(k) || contains_tuple(v),
         TyExpr::User(_, args) => args.iter().any(contains_tuple),
+        // ranges cannot be inlined either ("cannot be inlined")
+        TyExpr::Lib(n, args) => n.contains("Range") || args.iter().any(contains_tuple),
     }
 }
 
@@ -350,6 +364,7 @@ impl Cx<'_> {
             TyExpr::Option(t) | TyExpr::Vec(t) | TyExpr::Array(t, _) | TyExpr::Wrap(_, t) => self.mentions_generic_with_user_default(t),
             TyExpr::Tuple(ts) => ts.iter().any(|t| self.mentions_generic_with_user_default(t)),
             TyExpr::Map(k, v, _) => self.mentions_generic_with_user_default(k) || self.mentions_generic_with_user_default(v),
+            TyExpr::Lib(_, args) => args.iter().any(|t| self.mentions_generic_with_user_default(t)),
         }
     }
 
@@ -376,17 +391,106 @@ impl Cx<'_> {
             3 => TyExpr::Prim("u64"),
             4 => TyExpr::Prim("char"),
             5 => TyExpr::Prim("bool"),
-            _ => TyExpr::User(*t.pick(&unit_enums), vec![]),
+            _ => {
+                let k = TyExpr::User(*t.pick(&unit_enums), vec![]);
+                // a key behind a transparent wrapper (`BTreeMap<Box<Region>, _>`)
+                if t.pct(30) {
+                    TyExpr::Wrap(*t.pick(&["Box", "Rc", "Arc"]), Box::new(k))
+                } else {
+                    k
+                }
+            }
         }
     }
 
     fn gen_ty(&mut self, t: &mut Tape, params: &[Param]) -> TyExpr {
+        if self.p.library_types && t.pct(65) {
+            return self.gen_lib(t, params, 0);
+        }
         self.gen_ty_inner(t, params, 0, false)
     }
 
+    /// element types usable in sets / as range bounds
+    fn gen_ord_hash(&mut self, t: &mut Tape) -> TyExpr {
+        let unit_enums: Vec<usize> = (0..self.types.len()).filter(|i| self.unit_enum(*i)).collect();
+        if !unit_enums.is_empty() && t.pct(35) {
+            return TyExpr::User(*t.pick(&unit_enums), vec![]);
+        }
+        TyExpr::Prim(*t.pick(&["i32", "u8", "String", "char", "bool", "u64", "i64"]))
+    }
+
+    /// a library type expression (C12), arguments drawn from the ordinary generator
+    fn gen_lib(&mut self, t: &mut Tape, params: &[Param], depth: u32) -> TyExpr {
+        let arg = |cx: &mut Self, t: &mut Tape| {
+            if depth < 2 && t.pct(40) {
+                cx.gen_lib(t, params, depth + 1)
+            } else {
+                cx.gen_ty_inner(t, params, depth + 1, depth >= 1)
+            }
+        };
+        match t.weighted(&[12, 10, 8, 8, 6, 6, 5, 5, 5, 6, 6, 8, 5, 4, 3, 3]) {
+            0 => TyExpr::Lib(
+                *t.pick(&[
+                    "std::num::NonZeroU8", "std::num::NonZeroI8", "std::num::NonZeroU16", "std::num::NonZeroI16", "std::num::NonZeroU32",
+                    "std::num::NonZeroI32", "std::num::NonZeroU64", "std::num::NonZeroI64", "std::num::NonZeroUsize", "std::num::NonZeroIsize",
+                    "std::num::NonZeroU128", "std::num::NonZeroI128",
+                ]),
+                vec![],
+            ),
+            1 => TyExpr::Lib(
+                *t.pick(&[
+                    "std::path::PathBuf", "std::net::IpAddr", "std::net::Ipv4Addr", "std::net::Ipv6Addr", "std::net::SocketAddr",
+                    "std::net::SocketAddrV4", "std::net::SocketAddrV6",
+                ]),
+                vec![],
+            ),
+            2 => TyExpr::Lib("std::collections::HashSet", vec![self.gen_ord_hash(t)]),
+            3 => TyExpr::Lib("std::collections::BTreeSet", vec![self.gen_ord_hash(t)]),
+            4 => {
+                let a = arg(self, t);
+                let b = arg(self, t);
+                TyExpr::Lib("Result", vec![a, b])
+            }
+            5 => TyExpr::Lib(*t.pick(&["std::ops::Range", "std::ops::RangeInclusive"]), vec![TyExpr::Prim(*t.pick(&["i32", "u64", "f64", "usize", "char"]))]),
+            6 => TyExpr::Lib("std::sync::RwLock", vec![arg(self, t)]),
+            7 => TyExpr::Lib("std::borrow::Cow", vec![TyExpr::Prim("str")]),
+            8 => {
+                if t.pct(50) {
+                    TyExpr::Lib("Box", vec![TyExpr::Prim("str")])
+                } else {
+                    let a = arg(self, t);
+                    TyExpr::Lib("Box", vec![TyExpr::Lib("[_]", vec![a])])
+                }
+            }
+            9 => {
+                // tuples of arity 1..=10
+                let n = 1 + t.choose(10);
+                TyExpr::Tuple((0..n).map(|_| self.gen_ty_inner(t, params, depth + 2, true)).collect())
+            }
+            10 => {
+                // arrays up to serde's limit
+                let n = *t.pick(&[0usize, 1, 2, 5, 16, 31, 32]);
+                TyExpr::Array(Box::new(self.gen_ty_inner(t, params, depth + 2, true)), n)
+            }
+            11 => {
+                let k = self.gen_key(t);
+                let v = arg(self, t);
+                TyExpr::Map(Box::new(k), Box::new(v), t.pct(50))
+            }
+            12 => TyExpr::Option(Box::new(arg(self, t))),
+            13 => TyExpr::Vec(Box::new(arg(self, t))),
+            14 if self.p.known_wrappers => TyExpr::Lib("std::marker::PhantomData", vec![arg(self, t)]),
+            15 if self.p.known_wrappers => TyExpr::Lib("std::sync::Weak", vec![arg(self, t)]),
+            _ => TyExpr::Wrap(*t.pick(&["Box", "Rc", "Arc", "RefCell", "Mutex"]), Box::new(arg(self, t))),
+        }
+    }
+
     fn gen_ty_inner(&mut self, t: &mut Tape, params: &[Param], depth: u32, simple: bool) -> TyExpr {
+        if depth >= 4 {
+            return TyExpr::Prim(*t.pick(PRIMS));
+        }
         let deep = depth >= 2 || simple;
-        let w_user = if self.types.is_empty() { 0 } else { self.p.user_refs };
+        let w_user = if self.types.is_empty() { 0 } else if depth >= 2 { self.p.user_refs / 3 } else { self.p.user_refs };
         let w_param = if params.is_empty() { 0 } else { 18 };
         let w = [
             38,                          // 0 prim
@@ -636,7 +740,7 @@ impl Cx<'_> {
         let mut local = Names::new();
         let is_enum = t.pct(self.p.enums);
         let body = if is_enum {
-            let repr = match t.weighted(&[35, 25, 20, 20]) {
+            let repr = match t.weighted(&if self.p.external_only { [100, 0, 0, 0] } else { [35, 25, 20, 20] }) {
                 0 => Repr::External,
                 1 => Repr::Internal,
                 2 => Repr::Adjacent,
@@ -663,12 +767,13 @@ impl Cx<'_> {
                 attrs.rename_all_fields = Some(*t.pick(&RULES));
             }
             let nv = 1 + t.weighted(&[15, 30, 30, 15, 10]);
+            let force_unit = repr == Repr::External && params.is_empty() && t.pct(self.p.unit_enum_bias);
             let mut variants = vec![];
             let mut vnames = Names::new();
             for vi in 0..nv {
                 let unusual = self.p.unusual_idents;
                 let vident = vnames.fresh(t, &[CONVENTIONAL_VARIANTS, UNUSUAL_VARIANTS], &[100 - unusual, unusual], "Var");
-                let shape = t.weighted(&[30, 25, 30, if repr == Repr::Internal { 0 } else { 15 }]);
+                let shape = if force_unit { t.word(); 0 } else { t.weighted(&[30, 25, 30, if repr == Repr::Internal { 0 } else { 15 }]) };
                 let mut flocal = Names::new();
                 let mut body = match shape {
                     0 => VBody::Unit,
@@ -705,13 +810,13 @@ impl Cx<'_> {
                 if matches!(v.body, VBody::Named(_)) && t.pct(self.p.rename_all / 2) {
                     v.rename_all = Some(*t.pick(&RULES));
                 }
-                if vi > 0 && t.pct(self.p.skip) {
+                if vi > 0 && !force_unit && t.pct(self.p.skip) {
                     v.skip = true;
                 }
                 variants.push(v);
             }
             // per-variant untagged: a suffix of the variant list
-            if repr != Repr::Untagged && nv >= 2 && t.pct(12) {
+            if repr != Repr::Untagged && nv >= 2 && !self.p.external_only && !force_unit && t.pct(12) {
                 let k = 1 + t.choose(nv - 1);
                 for v in variants.iter_mut().skip(nv - k) {
                     v.untagged = true;
@@ -719,7 +824,7 @@ impl Cx<'_> {
             }
             // self reference in a non-first variant (not in untagged enums: serde's own untagged
             // deserialiser recurses without bound on `More(Box<Self>)`)
-            if t.pct(self.p.recursion) && params.is_empty() && repr != Repr::Untagged && !variants.iter().any(|v| v.untagged) {
+            if t.pct(self.p.recursion) && params.is_empty() && !force_unit && repr != Repr::Untagged && !variants.iter().any(|v| v.untagged) {
                 let vident = vnames.fresh(t, &[&["Rec", "Nested", "More"]], &[100], "RecVar");
                 let body = if repr == Repr::Internal {
                     VBody::Named(vec![Field { ident: Some(self.names.fresh(t, &[&["next", "child", "rest"]], &[100], "nxt")), ty: TyExpr::SelfRef("Option<Box<Self>>"), ..Field::default() }])
@@ -795,7 +900,7 @@ fn fix_unused_params(td: &mut TypeDef) {
             TyExpr::Option(t) | TyExpr::Vec(t) | TyExpr::Array(t, _) | TyExpr::Wrap(_, t) => uses(t, p),
             TyExpr::Tuple(ts) => ts.iter().any(|t| uses(t, p)),
             TyExpr::Map(k, v, _) => uses(k, p) || uses(v, p),
-            TyExpr::User(_, args) => args.iter().any(|t| uses(t, p)),
+            TyExpr::User(_, args) | TyExpr::Lib(_, args) => args.iter().any(|t| uses(t, p)),
         }
     }
     let names: Vec<String> = td.params.iter().map(|p| p.name.clone()).collect();
